@@ -141,7 +141,9 @@ func scenario(p Params) e1.Scenario {
 			want := expected(p)
 			outcome := fmt.Sprintf("dead=%v live=%v panics=%d returned=%v got=%s", x.Deadlock, x.Livelock, len(x.Panics), returned, got)
 			key := core.Hash(outcome, fmt.Sprint(len(x.Points)))
-			desc := func(what string) string { return fmt.Sprintf("%s | %s want=%s | %s | %s", what, p, want, outcome, x.Summary()) }
+			desc := func(what string) string {
+				return fmt.Sprintf("%s | %s want=%s | %s | %s", what, p, want, outcome, x.Summary())
+			}
 			if len(x.Panics) > 0 {
 				return "reducer-panic-escaped", desc("panic escaped the reducer: " + x.Panics[0]), outcome, key
 			}
